@@ -2,12 +2,15 @@
    Layer theorems: (1) what the library WRITES for an entry is decoded by the independent specification decoder to
    exactly that entry (long name, alias, slot positions); (2) the library's READERS agree with the specification on
    table values and short-name rendering; (3) the byte ranges a file reports as extents hold exactly its content.
-   The composition over whole volumes and sessions is checked on the implementation at every remount point
-   (tools/props/c04.py). *)
+   (4) the file layer over ONE device image (Model/VolFile.v): what it leaves on the device is what the independent
+   decoder reads back - chain walk, content, extents - after any history on a handle (Proofs/VolFileProofs.v).
+   The composition over whole volumes (directories, several layers) and sessions is checked on the implementation at
+   every remount point (tools/props/c04.py). *)
 From Coq Require Import NArith ZArith List.
 From FatVerif Require Import Model.Base Model.Str Model.Slot Model.Table Model.Fat Model.Name Model.FileM Model.DirSlots
   Spec.Image Spec.Abs Spec.ByteFile
   Proofs.ImageProofs Proofs.TableProofs Proofs.FileProofs Proofs.DirSlotsProofs Proofs.CrossProofs.
+From FatVerif Require Import Model.VolFile Proofs.FatProofs Proofs.VolFileProofs Proofs.VolFileExamples.
 Open Scope N_scope.
 
 Theorem C04_image_write_frame : forall bs im off o,
@@ -60,6 +63,103 @@ Theorem C04_extents_reproduce_content : forall w h sz l,
 Proof. exact (file_extents_spec T get set val okc okv inv get_val set_ok cs total Hcs Hokc Hokd). Qed.
 End Extents.
 
+(* ---------------------------------------------------------------- (4) the file layer on ONE image
+   Geometry [g] (Spec/Abs.v, e.g. [parse_geom im]) with [vgeom_ok g]: non-degenerate sizes, data area inside the volume,
+   the active FAT copy exists, one copy holds an entry for every cluster.  [Embeds g im w]: the FAT store of the
+   file-layer world [w] is the FAT slice of [g] (base = first / active copy, size = one copy, mirrors = all copies / 1)
+   and agrees with [im] on the bytes of those copies; the data of every data cluster c is the [g_cluster_size g] bytes of
+   [im] at [g_cluster_off g c].  [VFileInv]/[VWorldInv] = the C02 invariants at the byte-level store of the volume's
+   width; [NoBad]: no cluster of the chain carries the bad-cluster mark. *)
+
+(* a static embedded world: the decoder's chain walk from the first cluster is the chain of the invariant (any fuel
+   covering its length), and the first [sz] bytes of the decoder's chain bytes are the content of the byte array *)
+Theorem C04_file_decodes_static : forall g, vgeom_ok g -> forall im w h sz l,
+  Embeds g im w -> VFileInv g w h sz l -> NoBad g w l ->
+  match h_first h with
+  | Some f => forall fuel, (length l <= fuel)%nat -> chain_from g im f fuel = Some l
+  | None => l = []
+  end /\
+  firstn (N.to_nat sz) (chain_bytes g im l) = content fstore w l sz.
+Proof. exact decode_static. Qed.
+
+(* the same in the very expression Spec/Abs.v [decode_entries] computes for a file node from the directory entry's
+   first-cluster field (0 = none) and size; the decoder follows at most 2^17 links *)
+Theorem C04_file_decodes_entry : forall g, vgeom_ok g -> forall im w h sz l,
+  Embeds g im w -> VWorldInv g w -> VFileInv g w h sz l -> NoBad g w l ->
+  g_clusters g <= 131072 \/ N.of_nat (length l) <= 131072 ->
+  decode_file g im (first_field h) sz = content fstore w l sz.
+Proof. exact decode_file_static. Qed.
+
+(* [decode_file] IS the content the tree decoder [Abs.decode_entries] attaches to a file entry with that first cluster and size *)
+Theorem C04_file_decodes_node : forall g im d e,
+  e_is_dot e = false -> e_is_dir e = false ->
+  decode_entries g im (S d) [e] =
+  [NFile e (if e_cluster e =? 0 then None else chain_from g im (e_cluster e) (Abs.chain_fuel g))
+           (decode_file g im (e_cluster e) (e_size e))].
+Proof. exact decode_file_is_node. Qed.
+
+(* any history on a handle, run by the image-level machine [vol_run] (FileM over the FAT slice of the image, FAT entry
+   writes in every mirrored copy at their device offsets, data written through at g_cluster_off g c + offset):
+   the outcomes are a run of the byte-array machine whose state IS what the decoder reads from the image *)
+Theorem C04_file_decodes_run : forall g, vgeom_ok g -> forall ops im fi h sz l,
+  Forall op_ok ops -> VolInv g im fi h sz l ->
+  exists im' fi' h' rs sz' l', vol_run g (im, fi, h) ops = ((im', fi', h'), rs) /\
+    VolInv g im' fi' h' sz' l' /\
+    bf_run (firstn (N.to_nat sz) (chain_bytes g im l), h_off h) ops rs
+      = Some (firstn (N.to_nat sz') (chain_bytes g im' l'), h_off h') /\
+    match h_first h' with
+    | Some f => forall fuel, (length l' <= fuel)%nat -> chain_from g im' f fuel = Some l'
+    | None => l' = []
+    end.
+Proof. exact vol_run_refines. Qed.
+
+(* the same for plain FileM runs from ANY embedded world, the image effect replayed by [img_run] *)
+Theorem C04_file_decodes_replay : forall g, vgeom_ok g -> forall ops im w h sz l,
+  Embeds g im w -> VWorldInv g w -> VFileInv g w h sz l -> NoBad g w l ->
+  exists w' h' rs sz' l',
+    file_run fstore (fat_get (ft_of g)) (fat_set (ft_of g)) (g_cluster_size g) (g_clusters g) w h ops = (w', h', rs) /\
+    VWorldInv g w' /\ VFileInv g w' h' sz' l' /\ NoBad g w' l' /\
+    Embeds g (img_run g im w h ops) w' /\
+    bf_run (firstn (N.to_nat sz) (chain_bytes g im l), h_off h) ops rs
+      = Some (firstn (N.to_nat sz') (chain_bytes g (img_run g im w h ops) l'), h_off h') /\
+    match h_first h' with
+    | Some f => forall fuel, (length l' <= fuel)%nat -> chain_from g (img_run g im w h ops) f fuel = Some l'
+    | None => l' = []
+    end.
+Proof. exact embed_run. Qed.
+
+(* extents: File::extents on the image lists (g_cluster_off g c, min(cluster size, bytes left)) for the clusters c of
+   the chain in order; those byte ranges, read straight from the image, concatenate to the content the decoder reads *)
+Theorem C04_file_decodes_extents : forall g, vgeom_ok g -> forall im fi h sz l,
+  VolInv g im fi h sz l ->
+  exists ex,
+    file_extents fstore (fat_get (ft_of g)) (g_cluster_size g) (g_clusters g) (world_of g im fi) h = Ok ex /\
+    vol_extents g (im, fi, h) = Ok (map (fun e => (g_cluster_off g (fst e), snd e)) ex) /\
+    map fst ex = l /\ ext_total ex = sz /\ (forall e, In e ex -> 0 <= snd e <= g_cluster_size g) /\
+    read_ranges im (map (fun e => (g_cluster_off g (fst e), snd e)) ex) = firstn (N.to_nat sz) (chain_bytes g im l).
+Proof. exact vol_extents_spec. Qed.
+
+(* non-vacuity: the formatted 64-sector FAT12 image of Proofs/VolFileExamples.v satisfies the hypotheses with a new
+   empty file, and a history that puts 6 bytes across clusters 2 and 3 is decoded from the raw bytes *)
+Example C04_file_decodes_example_hyps : vgeom_ok ex_g /\ VolInv ex_g ex_im ex_fi empty_file 0 [] /\ Forall op_ok ex_ops.
+Proof. exact (conj ex_geom_ok (conj ex_vol_inv ex_ops_ok)). Qed.
+(* ... and on a non-trivial state: after that history the ghosts are size 515 and chain [2; 3] *)
+Example C04_file_decodes_example_state :
+  VolInv ex_g ex_im' ex_fi' ex_h' 515 [2; 3] /\ Embeds ex_g ex_im' (world_of ex_g ex_im' ex_fi').
+Proof. exact (conj ex_vol_inv_final (embeds_world_of ex_g ex_im' ex_fi')). Qed.
+Example C04_file_decodes_example :
+  let '(st, rs) := vol_run ex_g (ex_im, ex_fi, empty_file) ex_ops in
+  let '(im', fi', h') := st in
+  rs = [RCount 509; RCount 3; RCount 3] /\ h_first h' = Some 2 /\ h_size h' = Some 515 /\
+  chain_from ex_g im' 2 (Abs.chain_fuel ex_g) = Some [2; 3] /\
+  skipn 509 (decode_file ex_g im' (first_field h') 515) = [1; 2; 3; 4; 5; 6] /\
+  img_read im' (512 + 3) 3 = [3; 240; 255] /\ img_read im' (1024 + 3) 3 = [3; 240; 255] /\
+  img_read im' (2048 + 509) 6 = [1; 2; 3; 4; 5; 6] /\
+  vol_extents ex_g st = Ok [(2048, 512); (2560, 3)] /\
+  skipn 509 (read_ranges im' [(2048, 512); (2560, 3)]) = [1; 2; 3; 4; 5; 6] /\
+  bf_run ([], 0) ex_ops rs = Some (decode_file ex_g im' (first_field h') 515, 515).
+Proof. exact ex_run_decodes. Qed.
+
 Print Assumptions C04_image_write_frame.
 Print Assumptions C04_written_entry_decodes.
 Print Assumptions C04_fat12_values_agree.
@@ -67,3 +167,9 @@ Print Assumptions C04_fat16_values_agree.
 Print Assumptions C04_fat32_values_agree.
 Print Assumptions C04_short_name_render_agrees.
 Print Assumptions C04_extents_reproduce_content.
+Print Assumptions C04_file_decodes_static.
+Print Assumptions C04_file_decodes_entry.
+Print Assumptions C04_file_decodes_node.
+Print Assumptions C04_file_decodes_run.
+Print Assumptions C04_file_decodes_replay.
+Print Assumptions C04_file_decodes_extents.
